@@ -184,10 +184,11 @@ def dedupe_and_order(tasks, builts):
                 if f_ is not None and f_.text:
                     parts.append(x + '\n' + '\n'.join(f_.text.split('\n')[1:]))
             return hash('\n'.join(parts))
+        scheduled = {(b.cfg['name'], item) for (b, item) in tasks}     # a proof is shared only with a proof that runs in this very check
         kept = []
         for (b, item) in tasks:
             ref = b.cfg.get('dedupe_against')
-            if ref and ref in builts and item.split('@')[0] in builts[ref].model.em.by_cname:
+            if ref and ref in builts and (ref, item) in scheduled and item.split('@')[0] in builts[ref].model.em.by_cname:
                 if closure_sig(b, item) == closure_sig(builts[ref], item):
                     shared.append('%s/%s == %s/%s' % (b.cfg['name'], item, ref, item))
                     continue
